@@ -111,6 +111,8 @@ type Exec struct {
 	threadWG  sync.WaitGroup
 	Switches  int
 	holes     []*smt.Term
+	snaps     []*snapshot
+	ModPath   string
 	TapeIn    []TapeEntry
 	tapePos   int
 	Merged    map[string]int
@@ -545,6 +547,7 @@ func (x *Exec) RunPath(fn *ssa.Function, prefix []int) (res *PathResult, forks [
 	x.sc = &scope{prefix: prefix}
 	x.tapePos = 0
 	x.holes = nil
+	x.snaps = nil
 	x.preemptions = 0
 	x.mergeMark = nil
 	x.modelOK = false
